@@ -6,7 +6,7 @@ import json
 from typing import List
 
 from harness.extract import filter as x_filter
-from harness.lib.core import VERIF, Ctx, lean_lock, run_driver, shrink_ops
+from harness.lib.core import TRUSTED_BASE, VERIF, Ctx, lean_lock, run_driver, shrink_ops
 from harness.rigs import filter as rig
 from harness.rigs import net as netrig
 
@@ -126,6 +126,16 @@ def run(ctx: Ctx):
     with lean_lock():
         ctx.extract("Filter", x_filter.emit)
         ctx.prove(MODULES, exes=[EXE], clean=False, leanchecker=ctx.thorough)
+    ctx.assumptions = list(TRUSTED_BASE) + [
+        "C06: software above the filtering layer is an arbitrary parameter of the model; two hypotheses on it are validated by "
+        "R-net only: a denying router's handling of genuine ARP packets stays on the attacker side; software does not re-enable a "
+        "boundary interface while processing frames",
+        "C06: node-off inertness of hosts/switches/firewalls rests on C12's invariant 'not ON => interfaces disabled' (F-13/F-14)",
+        "C06: frames are values in the model (the code shares one mutable Frame object among the recipients of a flood); frames "
+        "whose IP protocol is TCP/UDP carry that header (enforced by Frame.__init__)",
+        "C06: class-specific router rules and firewall second-stage blocks have element lemmas but no cut-theorem instance; those "
+        "scenarios are checked by the R-net oracle only (histogram keys net:uncertified:*)",
+    ]
     ctx.cov["rule"] = ("R-filter: case = (element kind, power, interface flags, rule lists, frames/flag flips); non-trivial when "
                        "some frame passes the interface gate. R-net: case = (topology family, placement, block mechanism, rule "
                        "shape, timing, red operation list); non-trivial when the same operations change the B side without the "
